@@ -45,10 +45,14 @@ structure Dir where
   rel : Str
   deriving DecidableEq, Repr
 
-/-- The table file of a declaration: `<dir>/ups/<name>.table` or the literal `none`. -/
+/-- The table file of a declaration: `<dir>/ups/<name>.table`, the literal `none`, a file kept somewhere else
+(`declare -m <path>`), or the copy in the extra directory of the declaration,
+`ups_db/<flavor>/<name>/<version>/ups/<name>.table` (table given as a stream, `declare -M`; "interned"). -/
 inductive Table
   | default
   | none
+  | ext (d : Dir)
+  | interned
   deriving DecidableEq, Repr
 
 structure Decl where
@@ -91,6 +95,13 @@ structure Extra where
   name : Name
   ver : Ver
   path : Str
+  content : Nat
+  deriving DecidableEq, Repr
+
+/-- A table file kept outside the installation directories (what `declare -m <path>` can name); `content`
+identifies its bytes. -/
+structure TFile where
+  loc : Dir
   content : Nat
   deriving DecidableEq, Repr
 
@@ -296,6 +307,7 @@ structure Proc where
   dirs : List DirEnt
   tr : List Eff
   extras : List Extra := []
+  tfiles : List TFile := []
   deriving Repr
 
 def Proc.db (p : Proc) : Spec := p.tr.foldl (fun c e => applyDb e c) p.db0
@@ -307,6 +319,40 @@ def Proc.tableExists (p : Proc) (d : Dir) (n : Name) : Bool := p.dirs.any fun e 
 
 /-- `os.path.join(flavor, productName, versionName)` -/
 def relDir (f : Flav) (n : Name) (v : Ver) : Str := f ++ [47] ++ n ++ [47] ++ v
+
+/-! ## table files -/
+
+def sUpsDb : Str := [117, 112, 115, 95, 100, 98]        -- "ups_db"
+def sUps : Str := [117, 112, 115]                        -- "ups"
+def sDotTable : Str := [46, 116, 97, 98, 108, 101]       -- ".table"
+
+/-- `ups/<name>.table`, below the extra directory of a declaration -/
+def tablePathOf (n : Name) : Str := sUps ++ [47] ++ n ++ sDotTable
+
+/-- where an extra file lies: `ups_db/<flavor>/<name>/<version>/<path>` of its stack -/
+def Extra.loc (x : Extra) : Dir := ⟨x.stack, sUpsDb ++ [47] ++ relDir x.flav x.name x.ver ++ [47] ++ x.path⟩
+
+/-- where the interned table of a declaration lies -/
+def internedLoc (s : Nat) (f : Flav) (n : Name) (v : Ver) : Dir :=
+  ⟨s, sUpsDb ++ [47] ++ relDir f n v ++ [47] ++ tablePathOf n⟩
+
+/-- `utils.isSubpath(path, dbpath)` for the database directory of stack `s` (by path components) -/
+def underUpsDb (s : Nat) (d : Dir) : Bool := d.root == s && (sUpsDb ++ [47]).isPrefixOf d.rel
+
+/-- content of the file at `d`: a table file kept outside the installation directories, or an extra file -/
+def Proc.fileContent (p : Proc) (d : Dir) : Option Nat :=
+  match p.tfiles.find? (fun t => t.loc == d) with
+  | some t => some t.content
+  | none => (p.extras.find? fun x => x.loc == d).map (·.content)
+
+/-- content of the table file a declaration points at (`0`: the table of an installation directory);
+`none`: there is no such file -/
+def Proc.tableContent (p : Proc) (o : Decl) : Option Nat :=
+  match o.table with
+  | .default => if p.tableExists o.dir o.name then some 0 else none
+  | .none => none
+  | .ext d => p.fileContent d
+  | .interned => p.fileContent (internedLoc o.stack o.flav o.name o.ver)
 
 /-! ## `Eups.assignTag` -/
 
@@ -346,13 +392,21 @@ def unassignTag (nst : Nat) (self : Flav) (t : Tag) (n : Name) (v : Option Ver) 
 
 /-! ## `Eups.declare` -/
 
+/-- the `tablefile` argument: `None`, `"none"`, a path (`-m`), a stream with this content (`-M`) -/
+inductive TableArg
+  | dflt
+  | none
+  | path (d : Dir)
+  | stream (c : Nat)
+  deriving DecidableEq, Repr
+
 structure DeclareArgs where
   self : Flav                 -- flavor of the Eups instance
   name : Name
   ver : Ver
   dir : Option Dir            -- productDir
   stack : Option Nat          -- eupsPathDir
-  tableNone : Bool            -- tablefile="none" (otherwise tablefile=None)
+  table : TableArg            -- tablefile
   tag : Option Tag
   force : Bool
   noaction : Bool
@@ -378,12 +432,20 @@ inductive Redeclare
   | refuse
   deriving DecidableEq, Repr
 
-def redeclare (old : Option Decl) (d : Dir) (table : Table) (hasTag force : Bool) (extDiff : Bool := false) : Redeclare :=
+/-- `if full_tablefile: if _tablefile and tablefile != _tablefile: filecmp.cmp(...)`: the call names a table
+file (content `new`) and the declared one is another file with other content, or is not there -/
+def tableDiff (old new : Option Nat) : Bool :=
+  match new with
+  | some c => old != some c
+  | none => false
+
+def redeclare (old : Option Decl) (oldContent : Option Nat) (d : Dir) (newContent : Option Nat)
+    (hasTag force : Bool) (extDiff : Bool := false) : Redeclare :=
   match old with
   | none => .write
   | some o =>
     if force then .write else
-    if o.dir != d || (table == .default && o.table == .none) || extDiff then
+    if o.dir != d || tableDiff oldContent newContent || extDiff then
       (if hasTag then .keep else .refuse)
     else .keep
 
@@ -392,6 +454,12 @@ structure Resolved where
   d : Dir                -- productDir
   table : Table
   target : Nat           -- eupsPathDir (= eupsPathDirForRead: every stack is writable)
+  /-- content of the table file the call names (`full_tablefile`); `none`: no file to compare -/
+  content : Option Nat := none
+  /-- externalFileList as the redeclaration check sees it -/
+  diffList : List (Str × Nat) := []
+  /-- the files the save loop copies -/
+  saveList : List (Str × Nat) := []
   deriving DecidableEq, Repr
 
 /-- the tag asked for, or `current` for the first version of the product (l.2538) -/
@@ -407,22 +475,30 @@ def targetOf (nst : Nat) (a : DeclareArgs) (d : Dir) : Nat :=
   | some s => s
   | none => if d.root < nst then d.root else 0
 
-/-- directory and table of `Eups.declare` (l.2326-2525); `none`: one of the `EupsException`s raised there -/
-def resolveDirTable (nst : Nat) (a : DeclareArgs) (p : Proc) : Option (Dir × Table) :=
+/-- `tablefile = info.tablefile`: the resolved path of the table file of the declaration found -/
+def inheritTable (i : Decl) : TableArg :=
+  match i.table with
+  | .default => .dflt          -- `<dir>/ups/<name>.table` of the same directory
+  | .none => .none
+  | .ext d => .path d
+  | .interned => .path (internedLoc i.stack i.flav i.name i.ver)
+
+/-- directory and table argument of `Eups.declare` (l.2326-2380); `none`: one of the `EupsException`s raised there -/
+def resolveDirTable (nst : Nat) (a : DeclareArgs) (p : Proc) : Option (Dir × TableArg) :=
   let m := p.mem
   -- `if tag and (not productDir or not tablefile)`: look the product up, native flavor first
   let info : Option Decl :=
-    if a.tag.isSome && (a.dir.isNone || !a.tableNone) then
+    if a.tag.isSome && (a.dir.isNone || a.table == .dflt) then
       (fallbacks a.self).findSome? fun fl => m.findIn (stacksOf nst a.stack) a.name a.ver fl
     else none
   let dir1 : Option Dir := match a.dir with
     | some d => some d
     | none => info.map (·.dir)
-  let table : Table :=
-    if a.tableNone then .none else
+  let table : TableArg :=
+    if a.table != .dflt then a.table else
     match info, dir1 with
-    | some i, some d => if d = i.dir then i.table else .default
-    | _, _ => .default
+    | some i, some d => if d = i.dir then inheritTable i else .dflt
+    | _, _ => .dflt
   -- "Look for productDir on self.path"
   let dir2 : Option Dir := match dir1 with
     | some d => some d
@@ -433,20 +509,42 @@ def resolveDirTable (nst : Nat) (a : DeclareArgs) (p : Proc) : Option (Dir × Ta
   | none => none                                    -- "Please specify a productDir"
   | some d =>
     if !(p.dirExists d) then none else              -- "is not a directory"
-    if table == .default && !(p.tableExists d a.name) then none else   -- "tablefile does not exist"
     some (d, table)
+
+/-- `glob(<extra directory>/ups/*)`: the extra files of the declaration that lie directly in `ups/` -/
+def internedFiles (p : Proc) (a : DeclareArgs) (target : Nat) : List (Str × Nat) :=
+  (p.extras.filter fun x => x.stack == target && x.flav == a.self && x.name == a.name && x.ver == a.ver &&
+      (sUps ++ [47]).isPrefixOf x.path && !(x.path.drop 4).contains 47).map fun x => (x.path, x.content)
+
+/-- the table file once the stack is known (l.2427-2525): a stream is saved beside the external files and
+interned (its content is compared only as an external file, when the extra directory exists); a path below the database directory of the stack is taken for an interned table, together with
+what lies beside it; any other table file must exist.  `none`: "tablefile does not exist" -/
+def classifyTable (a : DeclareArgs) (d : Dir) (target : Nat) (t : TableArg) (p : Proc) : Option Resolved :=
+  match t with
+  | .none => some ⟨d, .none, target, none, a.ext, a.ext⟩
+  | .dflt => if p.tableExists d a.name then some ⟨d, .default, target, some 0, a.ext, a.ext⟩ else none
+  | .stream c =>
+    let l := a.ext ++ [(tablePathOf a.name, c)]
+    some ⟨d, .interned, target, none, l, l⟩      -- `full_tablefile = None` for an interned table: only the extra files are compared (D39)
+  | .path q =>
+    if underUpsDb target q then some ⟨d, .interned, target, none, a.ext ++ internedFiles p a target, a.ext⟩ else
+    match p.fileContent q with
+    | some c => some ⟨d, .ext q, target, some c, a.ext, a.ext⟩
+    | none => none
 
 /-- argument resolution of `Eups.declare`: directory, table, stack -/
 def resolveDeclare (nst : Nat) (a : DeclareArgs) (p : Proc) : Option Resolved :=
-  (resolveDirTable nst a p).map fun dt => ⟨dt.1, dt.2, targetOf nst a dt.1⟩
+  match resolveDirTable nst a p with
+  | none => none
+  | some (d, t) => classifyTable a d (targetOf nst a d) t p
 
 /-- "check external files" (l.2568-2588): the extra directory of the declaration exists and its content is not
 what the call lists — a file to add, a file with other content, a file that is not being replaced -/
-def extDiff (p : Proc) (a : DeclareArgs) (target : Nat) : Bool :=
+def extDiff (p : Proc) (a : DeclareArgs) (target : Nat) (l : List (Str × Nat)) : Bool :=
   let mine := p.extras.filter fun x => x.stack == target && x.flav == a.self && x.name == a.name && x.ver == a.ver
   !mine.isEmpty &&
-    (a.ext.any (fun e => !(mine.any fun x => x.path == e.1 && x.content == e.2)) ||
-     mine.any (fun x => !(a.ext.any fun e => e.1 == x.path)))
+    (l.any (fun e => !(mine.any fun x => x.path == e.1 && x.content == e.2)) ||
+     mine.any (fun x => !(l.any fun e => e.1 == x.path)))
 
 /-- "Save extra files in the extra directory" (l.2706-2722), past the dry-run guards -/
 def saveExtras (a : DeclareArgs) (target : Nat) : List (Str × Nat) → Proc → Proc
@@ -470,7 +568,7 @@ def declareCore (nst : Nat) (a : DeclareArgs) (r : Resolved) (tag : Option Tag) 
 def declareFinish (nst : Nat) (a : DeclareArgs) (r : Resolved) (tag : Option Tag) (rd : Redeclare) (p : Proc) :
     Outcome × Proc :=
   match declareCore nst a r tag rd p with
-  | (.ok, p2) => if a.noaction then (.ok, p2) else (.ok, saveExtras a r.target a.ext p2)
+  | (.ok, p2) => if a.noaction then (.ok, p2) else (.ok, saveExtras a r.target r.saveList p2)
   | x => x
 
 def declare (nst : Nat) (a : DeclareArgs) (p : Proc) : Outcome × Proc :=
@@ -478,8 +576,9 @@ def declare (nst : Nat) (a : DeclareArgs) (p : Proc) : Outcome × Proc :=
   | none => (.refused, p)
   | some r =>
     let tag := declareTag nst a p.mem
-    match redeclare (p.mem.findDecl r.target a.name a.ver a.self) r.d r.table tag.isSome a.force
-        (extDiff p a r.target) with
+    let old := p.mem.findDecl r.target a.name a.ver a.self
+    match redeclare old (old.bind p.tableContent) r.d r.content tag.isSome a.force
+        (extDiff p a r.target r.diffList) with
     | .refuse => (.refused, p)                     -- "Redeclaring ...; specify force to proceed"
     | rd => declareFinish nst a r tag rd p
 
@@ -565,7 +664,7 @@ def remove (nst : Nat) (self : Flav) (n : Name) (v : Ver) (recursive noaction fo
   | none => (.notFound, p)
   | some prod =>
     -- `recursive`: `_remove` reads `product.getTable()` (the universes' tables declare no dependencies)
-    if recursive && prod.table == .default && !(p.tableExists prod.dir n) then (.tableMissing, p) else
+    if recursive && prod.table != .none && (p.tableContent prod).isNone then (.tableMissing, p) else
     match undeclare nst ⟨self, n, some v, none, none, false, noaction, force, setup⟩ p with
     | (.ok, p1) =>
       if noaction then (.ok, p1) else
@@ -654,11 +753,12 @@ def wouldDo (nst : Nat) (c : Cmd) (p : Proc) : List Msg :=
     | none => []
     | some r =>
       let tag := declareTag nst a m
-      match redeclare (m.findDecl r.target a.name a.ver a.self) r.d r.table tag.isSome a.force
-          (extDiff p a r.target) with
+      let old := m.findDecl r.target a.name a.ver a.self
+      match redeclare old (old.bind p.tableContent) r.d r.content tag.isSome a.force
+          (extDiff p a r.target r.diffList) with
       | .refuse => []
       | rd => (if rd == .write then [.declaring r.target tag] else []) ++
-              (match tag with | some t => [.assigning t] | none => []) ++ a.ext.map (fun e => .copy e.1)
+              (match tag with | some t => [.assigning t] | none => []) ++ r.saveList.map (fun e => .copy e.1)
   | .undeclare a =>
     match a.tag with
     | none => (sayUndeclareVersion nst a a.ver m).1
@@ -677,7 +777,7 @@ def wouldDo (nst : Nat) (c : Cmd) (p : Proc) : List Msg :=
     match m.findIn (allStacks nst) n v f with
     | none => []
     | some prod =>
-      if rc && prod.table == .default && !(p.tableExists prod.dir n) then [] else
+      if rc && prod.table != .none && (p.tableContent prod).isNone then [] else
       match sayUndeclareVersion nst ⟨f, n, some v, none, none, false, true, fo, su⟩ (some v) m with
       | (msgs, some _) => msgs ++ [.rmrf prod.dir]
       | (msgs, none) => msgs
